@@ -6,6 +6,7 @@ import Redress.Props.C03
 #print axioms Redress.Props.C03.no_backoff_after_last
 #print axioms Redress.Props.C03.sleep_only_if_permitted
 #print axioms Redress.Props.C03.next_attempt_only_after_sleep
+#print axioms Redress.Props.C03.strategy_only_if_class_permits
 #print axioms Redress.Props.C03.budget_once_after_strategy
 #print axioms Redress.Props.C03.retry_event_only_if_granted
 #print axioms Redress.Props.C03.stop_reason_sound
